@@ -134,11 +134,19 @@ def applicable (s : State) (k : Nat) (r : Rec) : Bool :=
         | some k' => k' == k)
   | none => false
 
+/-- every announcement of a sequence of remote changes is honourable at the moment it arrives -/
+def okRemotes : State → List Remote → Bool
+  | _, [] => true
+  | s, .put k r :: rest => applicable s k r && okRemotes (remotePut s k r) rest
+  | s, .del k :: rest => okRemotes (remoteDel s k) rest
+
 /-- the guard under which an operation is an admissible event of a history: remote announcements are
     honourable, and a Query enumerates every key of the store (in any order, possibly with repetitions) -/
 def okOp (s : State) : Op → Bool
   | .remotePut k r => applicable s k r
   | .restart order => (AMap.keys s.store).all fun k => order.contains k
+  | .restartGap order w =>
+    ((AMap.keys s.store).all fun k => order.contains k) && okRemotes (restart s order) w
   | _ => true
 
 def Valid : State → List Op → Prop
@@ -491,6 +499,52 @@ theorem step_cfg (s : State) (op : Op) : (step s op).1.a.cfg = s.a.cfg := by
       · exact setAllocation_fail_cfg _ _ _ _
     · exact setAllocation_fail_cfg _ _ _ _
   | remoteDel k => exact release_cfg _ _
+  | restartGap order w =>
+    simp only [step, startGap]
+    have hl : ∀ (l : List (Nat × Rec)) (a : Bitmap.State), (load a l).cfg = a.cfg := by
+      intro l
+      induction l with
+      | nil => intro a; rfl
+      | cons hd rest ih =>
+        intro a
+        obtain ⟨k, r⟩ := hd
+        simp only [load]
+        rw [ih, setAllocation_fail_cfg]
+    have hw : ∀ (w : List Remote) (a : Bitmap.State), (w.foldl Remote.onMem a).cfg = a.cfg := by
+      intro w
+      induction w with
+      | nil => intro a; rfl
+      | cons ev rest ih =>
+        intro a
+        simp only [List.foldl_cons]
+        rw [ih]
+        cases ev with
+        | put k r =>
+          simp only [Remote.onMem, applyPut]
+          split
+          · split
+            · rfl
+            · exact setAllocation_fail_cfg _ _ _ _
+          · exact setAllocation_fail_cfg _ _ _ _
+        | del k => exact release_cfg _ _
+    rw [hw, hl]; rfl
+
+/-- Start with a window of remote changes = the restart, then those changes delivered in order: a change that
+    reaches the store while Start is reading it is applied after the load — it is never lost -/
+theorem startGap_eq (s : State) (order : List Nat) (w : List Remote) :
+    startGap s order w = w.foldl applyRemote (restart s order) := by
+  have h : ∀ (w : List Remote) (a : Bitmap.State) (st : Store),
+      ({ a := w.foldl Remote.onMem a, store := w.foldl Remote.onStore st } : State) =
+        w.foldl applyRemote { a := a, store := st } := by
+    intro w
+    induction w with
+    | nil => intro a st; rfl
+    | cons ev rest ih =>
+      intro a st
+      simp only [List.foldl_cons]
+      rw [ih]
+      cases ev <;> rfl
+  exact h w _ _
 
 theorem okOp_restart {s : State} {order : List Nat} (h : okOp s (.restart order) = true) :
     ∀ k r, AMap.lookup s.store k = some r → k ∈ order := by
@@ -498,6 +552,21 @@ theorem okOp_restart {s : State} {order : List Nat} (h : okOp s (.restart order)
   simp only [okOp, List.all_eq_true] at h
   have := h k (mem_keys_of_lookup hk)
   simpa using this
+
+theorem sinv_remotes : ∀ (w : List Remote) (s : State), SInv s → okRemotes s w = true →
+    SInv (w.foldl applyRemote s) := by
+  intro w
+  induction w with
+  | nil => intro s h _; exact h
+  | cons ev rest ih =>
+    intro s hI hok
+    cases ev with
+    | put k r =>
+      simp only [okRemotes, Bool.and_eq_true] at hok
+      exact ih _ (sinv_remotePut hI hok.1) hok.2
+    | del k =>
+      simp only [okRemotes] at hok
+      exact ih _ (sinv_remoteDel hI k) hok
 
 theorem sinv_step {s : State} (hI : SInv s) (hc : s.a.cfg.plen - s.a.cfg.poolPrefix < 64) (op : Op)
     (hok : okOp s op = true) : SInv (step s op).1 := by
@@ -511,6 +580,12 @@ theorem sinv_step {s : State} (hI : SInv s) (hc : s.a.cfg.plen - s.a.cfg.poolPre
   | restart order => exact sinv_restart hI hc order (okOp_restart hok)
   | remotePut k r => exact sinv_remotePut hI hok
   | remoteDel k => exact sinv_remoteDel hI k
+  | restartGap order w =>
+    simp only [okOp, Bool.and_eq_true] at hok
+    have hR : SInv (restart s order) := sinv_restart hI hc order (okOp_restart (by simpa [okOp] using hok.1))
+    show SInv (startGap s order w)
+    rw [startGap_eq]
+    exact sinv_remotes w _ hR hok.2
 
 theorem run_cons (s : State) (op : Op) (ops : List Op) : run s (op :: ops) = run (step s op).1 ops := rfl
 
@@ -566,6 +641,36 @@ theorem alloc_error_keeps {s : State} (k : Nat) (f : Bool) (herr : (alloc s k f)
 
 end Bng.Dist.Session
 
+namespace Bng.Dist.Session
+
+/-- what Allocate does to the store: nothing, or (only when the write was not made to fail) the record of the
+    prefix the bitmap allocator answered -/
+theorem alloc_store (s : State) (k : Nat) (f : Bool) :
+    (alloc s k f).1.store = s.store ∨
+    (f = false ∧ ∃ a, (Bitmap.alloc s.a k).2 = .okAddr a ∧
+      (alloc s k f).1.store = AMap.insert s.store k { addr := a, plen := s.a.cfg.plen, epoch := 0 }) := by
+  unfold alloc
+  generalize Bitmap.alloc s.a k = r
+  obtain ⟨a', o⟩ := r
+  cases o with
+  | okAddr a =>
+    cases f with
+    | true => left; rfl
+    | false => right; exact ⟨rfl, a, rfl, rfl⟩
+  | _ => left; rfl
+
+/-- Release only ever deletes the subscriber's own record -/
+theorem release_store (s : State) (k : Nat) (f : Bool) :
+    (release s k f).1.store = s.store ∨ (release s k f).1.store = AMap.erase s.store k := by
+  unfold release
+  split
+  · left; rfl
+  · split
+    · left; rfl
+    · right; rfl
+
+end Bng.Dist.Session
+
 namespace Bng.Dist.Pool
 open Bng AMap Bng.Dist.Session
 
@@ -580,12 +685,241 @@ theorem pinv_step {st : State} (hI : SInv st.s) (op : Op) : SInv (step st op).1.
     split <;> exact hI
   | unforeign a => exact hI
   | rtstore => exact hI
+  | qalloc k f => exact hI
+  | qrelease k f => exact hI
+  | qlookup _ => exact hI
+  | scribble => exact hI
 
 theorem pinv_run : ∀ (ops : List Op) (st : State), SInv st.s → SInv (run st ops).s := by
   intro ops
   induction ops with
   | nil => intro st h; exact h
   | cons op ops ih => intro st h; exact ih _ (pinv_step h op)
+
+/-- the same for the second pool over the shared store -/
+theorem qinv_step {st : State} (hI : SInv st.q) (op : Op) : SInv (step st op).1.q := by
+  cases op with
+  | qalloc k f => exact sinv_alloc hI k _
+  | qrelease k f => exact sinv_release hI k f
+  | foreign a =>
+    simp only [step, foreign]
+    split <;> exact hI
+  | _ => exact hI
+
+theorem qinv_run : ∀ (ops : List Op) (st : State), SInv st.q → SInv (run st ops).q := by
+  intro ops
+  induction ops with
+  | nil => intro st h; exact h
+  | cons op ops ih => intro st h; exact ih _ (qinv_step h op)
+
+/-! ### one address, one owner in the shared by-IP index -/
+
+/-- no address is recorded by both pools, and none by a pool and the third one -/
+structure Disj (st : State) : Prop where
+  pq : ∀ k r k' r', AMap.lookup st.s.store k = some r → AMap.lookup st.q.store k' = some r' → r.addr ≠ r'.addr
+  pf : ∀ k r, AMap.lookup st.s.store k = some r → st.foreign.contains r.addr = false
+  qf : ∀ k r, AMap.lookup st.q.store k = some r → st.foreign.contains r.addr = false
+
+theorem any_false_of_lookup {store : Store} {a : Nat} (h : store.any (fun p => p.2.addr == a) = false)
+    {k : Nat} {r : Rec} (hk : AMap.lookup store k = some r) : r.addr ≠ a := by
+  intro e
+  have hm := mem_of_lookup hk
+  rw [List.any_eq_false] at h
+  have := h (k, r) hm
+  simp [e] at this
+
+theorem taken_false {foreign : List Nat} {other : Session.State} {a : Nat} (h : taken foreign other a = false) :
+    foreign.contains a = false ∧ other.store.any (fun p => p.2.addr == a) = false := by
+  unfold taken at h
+  simpa [Bool.or_eq_false_iff] using h
+
+theorem disj_init (c : Bitmap.Cfg) : Disj (init c) :=
+  ⟨fun k r k' r' h => by simp [init, Session.init] at h,
+   fun k r h => by simp [init, Session.init] at h,
+   fun k r h => by simp [init, Session.init] at h⟩
+
+theorem lookup_erase_some {m : Store} {k k' : Nat} {r : Rec} (h : AMap.lookup (AMap.erase m k) k' = some r) :
+    AMap.lookup m k' = some r := by
+  rw [lookup_erase] at h
+  by_cases e : k' = k
+  · simp [e] at h
+  · simpa [e] using h
+
+theorem disj_step {st : State} (hD : Disj st) (op : Op) : Disj (step st op).1 := by
+  cases op with
+  | alloc k f =>
+    show Disj { st with s := (Session.alloc st.s k (f || conflictFor st k)).1 }
+    rcases Session.alloc_store st.s k (f || conflictFor st k) with h | ⟨hf, a, ha, h⟩
+    · exact ⟨fun k1 r k' r' h1 h2 => hD.pq k1 r k' r' (by rw [← h]; exact h1) h2,
+             fun k1 r h1 => hD.pf k1 r (by rw [← h]; exact h1), hD.qf⟩
+    · have hc : conflictFor st k = false := by
+        cases hcf : conflictFor st k with
+        | false => rfl
+        | true => rw [hcf] at hf; simp at hf
+      have ht : taken st.foreign st.q a = false := by
+        unfold conflictFor at hc
+        revert hc ha
+        generalize Bitmap.alloc st.s.a k = r
+        obtain ⟨a', o⟩ := r
+        intro ha hc
+        simp only at ha
+        subst ha
+        exact hc
+      obtain ⟨hfo, hq⟩ := taken_false ht
+      refine ⟨?_, ?_, hD.qf⟩
+      · intro k1 r k' r' h1 h2
+        simp only at h1 h2
+        rw [h, lookup_insert] at h1
+        by_cases e : k1 = k
+        · simp only [e, if_true, Option.some.injEq] at h1
+          subst h1
+          exact fun e' => any_false_of_lookup hq h2 e'.symm
+        · simp only [e, if_false] at h1
+          exact hD.pq k1 r k' r' h1 h2
+      · intro k1 r h1
+        simp only at h1
+        rw [h, lookup_insert] at h1
+        by_cases e : k1 = k
+        · simp only [e, if_true, Option.some.injEq] at h1
+          subst h1
+          exact hfo
+        · simp only [e, if_false] at h1
+          exact hD.pf k1 r h1
+  | qalloc k f =>
+    show Disj { st with q := (Session.alloc st.q k (f || qconflictFor st k)).1 }
+    rcases Session.alloc_store st.q k (f || qconflictFor st k) with h | ⟨hf, a, ha, h⟩
+    · exact ⟨fun k1 r k' r' h1 h2 => hD.pq k1 r k' r' h1 (by rw [← h]; exact h2), hD.pf,
+             fun k1 r h1 => hD.qf k1 r (by rw [← h]; exact h1)⟩
+    · have hc : qconflictFor st k = false := by
+        cases hcf : qconflictFor st k with
+        | false => rfl
+        | true => rw [hcf] at hf; simp at hf
+      have ht : taken st.foreign st.s a = false := by
+        unfold qconflictFor at hc
+        revert hc ha
+        generalize Bitmap.alloc st.q.a k = r
+        obtain ⟨a', o⟩ := r
+        intro ha hc
+        simp only at ha
+        subst ha
+        exact hc
+      obtain ⟨hfo, hp⟩ := taken_false ht
+      refine ⟨?_, hD.pf, ?_⟩
+      · intro k1 r k' r' h1 h2
+        simp only at h1 h2
+        rw [h, lookup_insert] at h2
+        by_cases e : k' = k
+        · simp only [e, if_true, Option.some.injEq] at h2
+          subst h2
+          exact any_false_of_lookup hp h1
+        · simp only [e, if_false] at h2
+          exact hD.pq k1 r k' r' h1 h2
+      · intro k1 r h1
+        simp only at h1
+        rw [h, lookup_insert] at h1
+        by_cases e : k1 = k
+        · simp only [e, if_true, Option.some.injEq] at h1
+          subst h1
+          exact hfo
+        · simp only [e, if_false] at h1
+          exact hD.qf k1 r h1
+  | release k f =>
+    show Disj { st with s := (Session.release st.s k f).1 }
+    rcases Session.release_store st.s k f with h | h
+    · exact ⟨fun k1 r k' r' h1 h2 => hD.pq k1 r k' r' (by rw [← h]; exact h1) h2,
+             fun k1 r h1 => hD.pf k1 r (by rw [← h]; exact h1), hD.qf⟩
+    · exact ⟨fun k1 r k' r' h1 h2 => hD.pq k1 r k' r' (lookup_erase_some (by rw [← h]; exact h1)) h2,
+             fun k1 r h1 => hD.pf k1 r (lookup_erase_some (by rw [← h]; exact h1)), hD.qf⟩
+  | qrelease k f =>
+    show Disj { st with q := (Session.release st.q k f).1 }
+    rcases Session.release_store st.q k f with h | h
+    · exact ⟨fun k1 r k' r' h1 h2 => hD.pq k1 r k' r' h1 (by rw [← h]; exact h2), hD.pf,
+             fun k1 r h1 => hD.qf k1 r (by rw [← h]; exact h1)⟩
+    · exact ⟨fun k1 r k' r' h1 h2 => hD.pq k1 r k' r' h1 (lookup_erase_some (by rw [← h]; exact h2)), hD.pf,
+             fun k1 r h1 => hD.qf k1 r (lookup_erase_some (by rw [← h]; exact h1))⟩
+  | foreign a =>
+    simp only [step, foreign]
+    split
+    · exact hD
+    · rename_i hno
+      simp only [Bool.or_eq_true, not_or, Bool.not_eq_true] at hno
+      refine ⟨hD.pq, ?_, ?_⟩
+      · intro k1 r h1
+        simp only at h1 ⊢
+        split
+        · exact hD.pf k1 r h1
+        · have hne := any_false_of_lookup hno.1 h1
+          have := hD.pf k1 r h1
+          simp only [List.contains_cons, Bool.or_eq_false_iff]
+          exact ⟨by simpa using hne, this⟩
+      · intro k1 r h1
+        simp only at h1 ⊢
+        split
+        · exact hD.qf k1 r h1
+        · have hne := any_false_of_lookup hno.2 h1
+          have := hD.qf k1 r h1
+          simp only [List.contains_cons, Bool.or_eq_false_iff]
+          exact ⟨by simpa using hne, this⟩
+  | unforeign a =>
+    refine ⟨hD.pq, ?_, ?_⟩
+    · intro k1 r h1
+      have := hD.pf k1 r h1
+      simp only [step, unforeign] at h1 ⊢
+      rw [List.contains_eq_any_beq] at this ⊢
+      rw [List.any_eq_false] at this ⊢
+      intro x hx
+      exact this x (List.mem_filter.mp hx).1
+    · intro k1 r h1
+      have := hD.qf k1 r h1
+      simp only [step, unforeign] at h1 ⊢
+      rw [List.contains_eq_any_beq] at this ⊢
+      rw [List.any_eq_false] at this ⊢
+      intro x hx
+      exact this x (List.mem_filter.mp hx).1
+  | lookup _ => exact hD
+  | stats => exact hD
+  | rtstore => exact hD
+  | qlookup _ => exact hD
+  | scribble => exact hD
+
+theorem disj_run : ∀ (ops : List Op) (st : State), Disj st → Disj (run st ops) := by
+  intro ops
+  induction ops with
+  | nil => intro st h; exact h
+  | cons op ops ih => intro st h; exact ih _ (disj_step h op)
+
+/-! ### writes through the caller's pointers are no operation of the store -/
+
+def notScribble : Op → Bool
+  | .scribble => false
+  | _ => true
+
+theorem run_drop_scribble : ∀ (ops : List Op) (st : State), run st (ops.filter notScribble) = run st ops := by
+  intro ops
+  induction ops with
+  | nil => intro st; rfl
+  | cons op ops ih =>
+    intro st
+    cases op with
+    | scribble => exact ih st
+    | _ => exact ih _
+
+theorem answers_drop_scribble : ∀ (ops : List Op) (st : State),
+    answers st (ops.filter notScribble) = ((answers st ops).zip ops).filterMap
+      (fun p => if notScribble p.2 then some p.1 else none) := by
+  intro ops
+  induction ops with
+  | nil => intro st; rfl
+  | cons op ops ih =>
+    intro st
+    cases op with
+    | scribble =>
+      simp only [List.filter, notScribble, answers, List.zip_cons_cons, List.filterMap_cons, Bool.false_eq_true, if_false]
+      exact ih st
+    | _ =>
+      simp only [List.filter, notScribble, answers, List.zip_cons_cons, List.filterMap_cons, if_true]
+      congr 1
+      exact ih _
 
 end Bng.Dist.Pool
 
@@ -969,5 +1303,24 @@ theorem load_inv : ∀ (l : List (Nat × Rec)) (a : Epoch.State) (st : Store), E
     split
     · exact ih _ _ h
     · exact ih _ _ (Epoch.inv_alloc h k)
+
+/-- lease mode: Start with a window of remote changes = the restart, then those changes delivered in order -/
+theorem startGap_eq (s : State) (order : List Nat) (w : List Session.Remote) :
+    startGap s order w = w.foldl applyRemote (restart s order) := by
+  have h : ∀ (w : List Session.Remote) (a : Epoch.State) (st : Store),
+      ({ a := w.foldl (fun a ev => match ev with
+            | .put k rec => applyPut a k rec
+            | .del k => (Epoch.release a k).1) a,
+         store := w.foldl Session.Remote.onStore st } : State) =
+        w.foldl applyRemote { a := a, store := st } := by
+    intro w
+    induction w with
+    | nil => intro a st; rfl
+    | cons ev rest ih =>
+      intro a st
+      simp only [List.foldl_cons]
+      rw [ih]
+      cases ev <;> rfl
+  exact h w _ _
 
 end Bng.Dist.Lease
